@@ -1915,6 +1915,13 @@ class state_multiple_service( state ):
                     end		= offsets[oi+1] - ( 2 + 2 * len( offsets ))
                 else:
                     end		= len( reqdata )
+                if not ( 0 <= beg <= end <= len( reqdata )):
+                    # An offset that locates no embedded message (it points into the offsets table,
+                    # behind the data, or before its predecessor); a negative index would be counted
+                    # from the end of the data.  There is no such request: keep its place, empty.
+                    log.normal( "%s Multiple Service Packet request %d offsets invalid: %d-%d of %d",
+                                target, oi, beg, end, len( reqdata ))
+                    beg = end	= len( reqdata )
                 if log.isEnabledFor( logging.DETAIL ):
                     log.detail( "%s Parsing: %3d-%3d of %r", target, beg, end, reqdata )
                 req		= dotdict()
